@@ -106,7 +106,8 @@ Proof.
   destruct f as [|p]; try (destruct o; discriminate). destruct p; try (destruct o; discriminate).
   destruct args as [|x [|y r]]; try (destruct o; discriminate).
   destruct (is_zero_lit z) eqn:Z; [|destruct o; discriminate].
-  destruct z as [|k s t| | | | | |]; try discriminate. destruct k; try discriminate. simpl in Z. apply String.eqb_eq in Z. subst s.
+  destruct z as [|k s t| | | | | |]; try discriminate. destruct k; try discriminate. simpl in Z.
+  destruct (go_int_lit s) as [[| |]|] eqn:GZ; try discriminate.
   intros Hb en h v h' Hen E.
   assert (G : forall o', o' = o -> is_cmp o' = true ->
      (forall n, (0 <= n)%Z -> cmp_ord o (n ?= 0)%Z = b) -> v = VBool b).
@@ -114,8 +115,8 @@ Proof.
     destruct (evalS_list en [x] h) as [[[vs|] h1]|]; cbv beta iota delta [bind] in E; try discriminate.
     destruct (prim_apply PLen vs) as [[w|]|] eqn:PA; cbv beta iota delta [bind lift] in E; try discriminate.
     destruct (prim_len_nonneg _ _ PA) as (n & -> & Hn0).
-    destruct t; simpl in E; try discriminate.
-    - inversion E. rewrite (Hn n Hn0). reflexivity. }
+    destruct t; simpl in E; try rewrite GZ in E; simpl in E; try discriminate.
+    inversion E. rewrite (Hn n Hn0). reflexivity. }
   destruct o; try discriminate; inversion Hb; subst b; apply (G _ eq_refl eq_refl); intros n Hn;
     destruct (Z.compare_spec n 0); simpl; auto; exfalso; lia.
 Qed.
@@ -123,6 +124,9 @@ Qed.
 (* ---------- offBy1 ---------- *)
 Lemma nth_Z_length {A} (l : list A) : nth_Z l (List.length l) = None.
 Proof. induction l; simpl; auto. Qed.
+
+Lemma nth_byte_length s : nth_byte s (String.length s) = None.
+Proof. induction s; simpl; auto. Qed.
 
 Theorem off_by1_panics e : off_by1 e = true -> always_panics e.
 Proof.
@@ -139,8 +143,10 @@ Proof.
     assert (vty va = tx) by (eapply (preservation en Hen x tx []); [exact Tx|rewrite Hx; reflexivity]).
     destruct tx; try discriminate; auto. }
   destruct va; simpl in Tv; try (destruct Tv; discriminate); simpl in Ev; try discriminate.
-  destruct (Z.of_nat (List.length l) <? 0)%Z eqn:Neg; [apply Z.ltb_lt in Neg; lia|].
-  rewrite Nat2Z.id, nth_Z_length in Ev. discriminate.
+  - unfold slen in Ev. destruct (Z.of_nat (String.length s) <? 0)%Z eqn:Neg; [apply Z.ltb_lt in Neg; lia|].
+    rewrite Nat2Z.id, nth_byte_length in Ev. discriminate.
+  - destruct (Z.of_nat (List.length l) <? 0)%Z eqn:Neg; [apply Z.ltb_lt in Neg; lia|].
+    rewrite Nat2Z.id, nth_Z_length in Ev. discriminate.
 Qed.
 
 (* ---------- dupSubExpr ---------- *)
